@@ -235,6 +235,12 @@ func ErrFates(p *core.Prog) []ErrFate {
 				}
 				if fate == "" {
 					fate = errValueFate(ev)
+					// a callee that can only fail with its package's sentinel errors ("not
+					// found"): testing its error against nil is telling that case apart, and
+					// acting on it (creating what was not found, say) is handling it
+					if fate == "swallowed" && sentinelOnly(p, c) {
+						fate = "handled"
+					}
 				}
 				out = append(out, ErrFate{Fn: fn, In: f, Callee: name, Pos: instrPos(in), Fate: fate})
 			})
@@ -243,4 +249,36 @@ func ErrFates(p *core.Prog) []ErrFate {
 	sort.SliceStable(out, func(i, j int) bool { return out[i].Pos < out[j].Pos })
 	errFateCache[p] = out
 	return out
+}
+
+// sentinelOnly: the callee is a repository function all of whose non-nil error results are
+// package-level sentinel values.
+func sentinelOnly(p *core.Prog, c ssa.CallInstruction) bool {
+	h := p.ByObj[core.CalleeObj(c)]
+	if h == nil || h.SSA == nil {
+		return false
+	}
+	idx := errResultIndex(h.SSA.Signature)
+	if idx < 0 {
+		return false
+	}
+	sentinels := 0
+	for _, ret := range core.Returns(h.SSA) {
+		if idx >= len(ret.Results) {
+			return false
+		}
+		v := ret.Results[idx]
+		if k, ok := v.(*ssa.Const); ok && k.IsNil() {
+			continue
+		}
+		u, ok := v.(*ssa.UnOp)
+		if !ok {
+			return false
+		}
+		if _, isGlobal := u.X.(*ssa.Global); !isGlobal {
+			return false
+		}
+		sentinels++
+	}
+	return sentinels > 0
 }
